@@ -516,7 +516,7 @@ def _l3(ctx, R, CM):
     # L3b: the reference-set prune of a cloned netlist / library only admits clones
     R.rule("L3b", "reference sets of cloned definitions are pruned to the instances that were cloned (membership in memo.values())")
     for rel, q in (("spydrnet/ir/netlist.py", "Netlist._clone_rip"), ("spydrnet/ir/library.py", "Library._clone_rip")):
-        f = P.func(rel, q)
+        f = inlined_view(P, P.func(rel, q), keep=lambda nm: nm.startswith("_clone_rip"))
         memoish_names = {"memo"}
         for n in walk_local(f.node):
             if isinstance(n, ast.Assign) and isinstance(n.targets[0], ast.Name) and any(isinstance(x, ast.Name) and x.id in memoish_names for x in ast.walk(n.value)):
